@@ -188,11 +188,11 @@ def conc_array(rng, shape, lo=0.1, hi=10.0):
 class Scenario:
     """Inputs of one fit: photometry, model grid (2-D or 3-D), extinction pattern, A_V range."""
 
-    def __init__(self, c, flags, nm, nd=None, conf_kind='open', rng=None, tag='', k=None, grid=None, rng_k=None):
+    def __init__(self, c, flags, nm, nd=None, conf_kind='open', rng=None, tag='', k=None, grid=None, rng_k=None, names=None):
         self.flags = tuple(flags)
         self.nf = nf = len(flags)
         self.nm, self.nd = nm, nd
-        self.names = ['mod_%s' % 'abcdefgh'[i] for i in range(nm)]
+        self.names = ['mod_%s' % 'abcdefgh'[i] for i in range(nm)] if names is None else list(names)
         self.fitted = [j for j, fl in enumerate(flags) if fl in FITTED]
         shape = (nm, nf) if nd is None else (nm, nd, nf)
         if rng is not None:
